@@ -166,18 +166,16 @@ Qed.
 Lemma reject_sound_l : forall c p t e n,
   c_fmax c = false -> c_fmin c = false -> check_prec (c_prec c) = Some p ->
   calc_node_ages c t = CErr e n ->
-  (e = Ultra \/ (e = Py TypeErr /\ exists v k, In v (preorder t) /\ In k (t_kids v) /\ t_len k = None))
+  e = Ultra
   /\ exists v, In v (preorder t) /\ t_id v = n
        /\ exists d1 d2, In d1 (tipdists v) /\ In d2 (tipdists v) /\ Z.abs (d1 - d2) > p.
 Proof.
   intros c p t e n Hmx Hmn Hp Ha. rewrite calc_node_ages_unforced in Ha by assumption.
   destruct (calc_enabled c p t Hmx Hmn Hp) as [[_ E] | [_ [e' [n' [E V]]]]]; rewrite E in Ha; [discriminate|].
-  inversion Ha; subst e' n'. destruct V as [v [cx [Hv [En [Hcx [Hd He]]]]]]. split.
-  - destruct He as [-> | [-> [s [Hs Hn]]]]; [left; reflexivity|]. right. split; [reflexivity|].
-    exists v, s. split; [exact Hv|]. split; [|exact Hn]. destruct (t_kids v); [destruct Hs | right; exact Hs].
-  - exists v. split; [exact Hv|]. split; [symmetry; exact En|].
-    exists (fp v), (fp cx + elen cx). split; [apply fp_in_tipdists|]. split; [|exact Hd].
-    apply (tipdists_kid v cx); [|apply fp_in_tipdists]. destruct (t_kids v); [destruct Hcx | right; exact Hcx].
+  inversion Ha; subst e' n'. destruct V as [v [cx [Hv [En [Hcx [Hd He]]]]]]. split; [exact He|].
+  exists v. split; [exact Hv|]. split; [symmetry; exact En|].
+  exists (fp v), (fp cx + elen cx). split; [apply fp_in_tipdists|]. split; [|exact Hd].
+  apply (tipdists_kid v cx); [|apply fp_in_tipdists]. destruct (t_kids v); [destruct Hcx | right; exact Hcx].
 Qed.
 
 Lemma reject_only_when_needed_l : forall c p t,
